@@ -406,3 +406,85 @@ theorem doJoin_views (a : Acc) (s : Nat) (x : Sess) (r rsid : String) (perms : O
   exact this
 
 end SigModel.Hub
+
+namespace SigModel.Hub
+
+/-- What leaving room `(x.backend, r0)` does outside that room: only the leaver's own record and the records of
+the room's (other) listeners change; other rooms, their listener lists and the session-subject listeners stay. -/
+theorem leaveRoom_frame (a : Acc) (s : Nat) (x : Sess) (r0 : String) (rm0 : Room)
+    (hx : a.h.sess s = some x) (hk : x.kind = .client) (hr : x.room = some r0)
+    (hrm : a.h.rooms x.backend r0 = some rm0) (hs : s ∈ rm0.members)
+    (hn : (a.h.roomL x.backend r0).Nodup) (hl : ∀ l ∈ a.h.roomL x.backend r0, Listens a.h l) :
+    let a' := (leaveRoom a s).1
+    (∃ y, a'.h.sess s = some y ∧ y.kind = .client ∧ y.room = none ∧ y.backend = x.backend) ∧
+    (∀ k, k ≠ s → k ∉ a.h.roomL x.backend r0 → a'.h.sess k = a.h.sess k) ∧
+    (∀ b' r', ¬ (b' = x.backend ∧ r' = r0) → a'.h.rooms b' r' = a.h.rooms b' r' ∧ a'.h.roomL b' r' = a.h.roomL b' r') ∧
+    a'.h.sessL = a.h.sessL := by
+  intro a'
+  let h3 := setSess (rsDelete (setRoomL a.h x.backend r0 (removeL (a.h.roomL x.backend r0) s)) s) s
+    (some { x with kind := .client, room := none, roomSess := "", seenJoin := [] })
+  have e : a' = roomRemoveSession { a with h := h3 } x.backend r0 s .client := by
+    simp only [a', leaveRoom, hx, hr, hk, reduceCtorEq, ↓reduceIte]
+    rfl
+  have hsess : ∀ k, k ≠ s → h3.sess k = a.h.sess k := by
+    intro k hk'; simp only [h3, hubf, hk', ↓reduceIte]
+  have hsessS : h3.sess s = some { x with kind := .client, room := none, roomSess := "", seenJoin := [] } := by
+    simp only [h3, hubf, ↓reduceIte]
+  have hrooms : h3.rooms = a.h.rooms := by simp only [h3, hubf]
+  have hroomL0 : h3.roomL x.backend r0 = removeL (a.h.roomL x.backend r0) s := by simp [h3, hubf]
+  have hroomL' : ∀ b' r', ¬ (b' = x.backend ∧ r' = r0) → h3.roomL b' r' = a.h.roomL b' r' := by
+    intro b' r' hne; simp [h3, hubf, hne]
+  have hsessL : h3.sessL = a.h.sessL := by simp only [h3, hubf]
+  have hc : rm0.members.contains s = true := by simpa using hs
+  -- the publication of `leave [s]`
+  have key : ∀ (h1 : Hub), h1.sess = h3.sess → h1.roomL = h3.roomL → h1.sessL = h3.sessL →
+      (∀ b' r', ¬ (b' = x.backend ∧ r' = r0) → h1.rooms b' r' = a.h.rooms b' r') →
+      let p := pubRoom { a with h := h1 } x.backend r0 (.msg (.leave [s]))
+      (∃ y, p.h.sess s = some y ∧ y.kind = .client ∧ y.room = none ∧ y.backend = x.backend) ∧
+      (∀ k, k ≠ s → k ∉ a.h.roomL x.backend r0 → p.h.sess k = a.h.sess k) ∧
+      (∀ b' r', ¬ (b' = x.backend ∧ r' = r0) → p.h.rooms b' r' = a.h.rooms b' r' ∧ p.h.roomL b' r' = a.h.roomL b' r') ∧
+      p.h.sessL = a.h.sessL := by
+    intro h1 e1 e2 e3 e4 p
+    have hn1 : (h1.roomL x.backend r0).Nodup := by rw [e2, hroomL0]; exact hn.filter _
+    have hl1 : ∀ k ∈ h1.roomL x.backend r0, Listens h1 k := by
+      intro k hk'; rw [e2, hroomL0] at hk'
+      obtain ⟨h1', h2'⟩ := mem_removeL.mp hk'
+      obtain ⟨w, hw, r'⟩ := hl k h1'
+      exact ⟨w, by rw [e1, hsess k h2']; exact hw, r'⟩
+    obtain ⟨-, q2, q3, q4, q5, -⟩ := pubRoom_event { a with h := h1 } x.backend r0 (.leave [s]) (Or.inr ⟨[s], rfl⟩) hn1 hl1
+    have hsn : s ∉ h1.roomL x.backend r0 := by
+      rw [e2, hroomL0]; intro hm; exact (mem_removeL.mp hm).2 rfl
+    refine ⟨⟨{ x with kind := .client, room := none, roomSess := "", seenJoin := [] },
+      (q2 s hsn).trans (by rw [e1]; exact hsessS), rfl, rfl, rfl⟩, ?_, ?_, ?_⟩
+    · intro k hks hkn
+      have : k ∉ h1.roomL x.backend r0 := by
+        rw [e2, hroomL0]; intro hm; exact hkn (mem_removeL.mp hm).1
+      exact (q2 k this).trans (by rw [e1]; exact hsess k hks)
+    · intro b' r' hne
+      refine ⟨?_, ?_⟩
+      · show (pubRoom _ _ _ _).h.rooms b' r' = _; rw [q3]; exact e4 b' r' hne
+      · show (pubRoom _ _ _ _).h.roomL b' r' = _; rw [q4]; show h1.roomL b' r' = _; rw [e2]; exact hroomL' b' r' hne
+    · show (pubRoom _ _ _ _).h.sessL = _; rw [q5]; show h1.sessL = _; rw [e3]; exact hsessL
+  rw [e]
+  unfold roomRemoveSession
+  have hrm3 : h3.rooms x.backend r0 = some rm0 := by rw [hrooms]; exact hrm
+  simp only [hrm3, hc, Bool.not_true, Bool.false_eq_true, ↓reduceIte, reduceCtorEq]
+  split
+  · exact key _ rfl rfl rfl (by intro b' r' hne; simp [setRoom, hne, hrooms])
+  · exact key _ rfl rfl rfl (by intro b' r' hne; simp [setRoom, hne, hrooms])
+
+end SigModel.Hub
+
+namespace SigModel.Hub
+
+/-- `doJoin` leaves the previous room first; what follows starts from the state after that leave. -/
+theorem doJoin_after_leave (a : Acc) (s : Nat) (r rsid : String) (perms : Option (List String)) (su : String)
+    (y : Sess) (hy : (leaveRoom a s).1.h.sess s = some y) (hyr : y.room = none) :
+    doJoin a s r rsid perms su = doJoin (leaveRoom a s).1 s r rsid perms su := by
+  have h2 : leaveRoom (leaveRoom a s).1 s = ((leaveRoom a s).1, false) := by
+    generalize (leaveRoom a s).1 = a1 at *
+    simp only [leaveRoom, hy, hyr]
+  unfold doJoin
+  rw [h2]
+
+end SigModel.Hub
